@@ -15,7 +15,7 @@ EXPLANATION = (
     "always written with explicit minimum/maximum (and scale/offset) taken from the fields the reader fills from its "
     "defaults, with attribute names and parse types agreeing; that prototype records are read and written in order; that "
     "writer and reader agree on the bit width for every range up to the full 64 bits and on the stored form; and that every "
-    "string passes the escaping gate. Also the writer/reader inverse field maps, the unchanged-text rule of the string reader and the page-reload loop. Not decided: that validate_prototype accepts every prototype the reader can produce, "
+    "string passes the escaping gate. Also the writer/reader inverse field maps, the unchanged-text rule of the string reader and the page-reload loop, and the bit-packing shape rules of C12 (add_bits, extraction window, append). Not decided: that validate_prototype accepts every prototype the reader can produce, "
     "and content equality of concrete copies (run-time).")
 
 
@@ -35,6 +35,9 @@ def run(ctx):
             xml_rules.prototype_order(ctx, prog, "R3")
             width_rules.width_formula(ctx, prog, "R4")
             codec_rules.stored_form(ctx, prog, "R4")
+            codec_rules.add_bits_shape(ctx, prog, "R4")
+            codec_rules.extract_window(ctx, prog, "R4")
+            codec_rules.append_shape(ctx, prog, "R4")
             xml_rules.escaping_gate(ctx, prog, "R4")
             header_rules.publication_order(ctx, prog, "R4")
             page_rules.read_current_page_shape(ctx, prog, "R4")
